@@ -184,7 +184,7 @@ def plan(tier, seed):
     pl.finite = list(getattr(pl, 'finite', None) or []) + [("A6/Lean re-check of the composition lemmas L-IND", _leanc.compose_check('L-IND'))]
     pl.functions = ["luqum.tree.Item.__eq__", "luqum.tree.Item.clone_item", "luqum.tree.Item._clone_item",
                     "luqum.tree.Item.children", "luqum.tree.BaseOperation.children"]
-    ntok = 4 if tier == "quick" else 5
+    ntok = 4 if tier == "quick" else 6
 
     def pairs():
         return bounded.run_native("c09_pairs", {"max_tokens": ntok, "known": bounded.known_for("C09", "C09-B")})
